@@ -213,6 +213,26 @@ SEEDS = {
     "C19j-record-history-capped": ("C19", "noise or modulation and more than 65536 steps between two collections of the records (outstep 0 or larger than the run, > 65 synchrotron periods at -N 1000): consumed pairs are only kept while the history holds fewer than 65536", ["C10"]),
     "C20j-negative-cldev-returns-false": ("C20", "a negative --cldev on the command line in a build without OpenCL (where the option is accepted and ignored): the preprocessor guard now only wraps the device listing, parse() returns false, nothing runs", ["C13"]),
     "C08j-kick-table-block-rounded-for-reader-only": ("C08", "two or more bunches, a y kick with one table per bunch (wake) and grid size x interpolation points not a multiple of 8 (3 points on 12/20/36 cells): the reader rounds the per-bunch table block up to a multiple of 8, the writer does not", ["C05", "C01", "C17"]),
+    # ---- round 11
+    "C01k-marker-collision-zeroes-row-at-plus-one": ("C01", "a y kick with 3 or 4 points and a charged row displaced by exactly +1 cell: a fast path takes the row's first table entry (index n/2, weight 0) for the 'kicked beyond the grid' marker and clears the row", ["C02", "C08"]),
+    "C02k-full-length-shift-cut-at-n-minus-1": ("C02", "a row displaced by exactly +-(n-1) cells (the largest whole-cell shift that still fits the grid): the beyond-the-grid guard became |offset| < n-1, the one border cell that should arrive on the opposite border is lost", ["C01"]),
+    "C03k-drift-power-not-advanced-over-zero-order": ("C03", "--alpha2 non-zero while --alpha1 is zero: the drift's power of the energy is a running product that is not advanced over a skipped zero coefficient, the cubic term becomes a quadratic one", ["C15", "C04"]),
+    "C04k-diffusion-per-points-not-intervals": ("C04", "coarse grids (64 cells and fewer): the diffusion coefficient uses cells per unit energy = points/length instead of intervals/length, the equilibrium width is 1+1/N (1.5 % at 64 cells, 2.4 % at 32)", ["C05", "C01"]),
+    "C06k-dc-term-of-wake-losses-dropped": ("C06", "an impedance with Re Z(0) != 0 (collimator, constant, a table): the product loop starts at bin 1 and bin 0 of the wake losses is set to zero", ["C10", "C07", "C05"]),
+    "C07k-csr-weights-frozen-at-construction": ("C07", "the shared Impedance object is modified (+=) after the field was constructed and before updateCSR(): the spectrum uses weights dq^2 Re Z copied at construction, the wake reads the live object", ["C18", "C06"]),
+    "C08k-table-offset-bunch-index-8bit": ("C08", "a train of more than 256 bunches and a y kick with one table per bunch (wake): the table offset helper takes the bunch number as an 8-bit integer, bunch 256+k is kicked with the wake of bunch k", ["C01"]),
+    "C09k-constructor-normalises-on-bare-profile": ("C09", "a phase space built by the constructor with zoom != 1 (and RenormalizeCharge -1 in the program): the charge is measured on the bare position profile instead of on the data, every bunch holds share x zoom", ["C10", "C04"]),
+    "C10k-bunch-charge-from-bending-radius": ("C10", "--BendingRadius given and different from c/(2 pi f_rev): the bunch charge is computed with 2 pi R_bend/c as revolution period, the Coulomb factors of populations, profiles and phase space are off by R_bend/R_ring", ["C13"]),
+    "C11k-zero-length-leg-makes-one-step": ("C11", "a leg with -T 0 (split point at the very start or the very end): the step count is max(1, ceil(steps*T)), the leg performs one step", ["C10", "C14"]),
+    "C12k-start-record-divided-by-save-cadence": ("C12", "start from a results file with an explicit positive --InitialDistStep and --SavePhaseSpace >= 2: the record index is divided by this run's save cadence, runs differing only in SavePhaseSpace start from different records", ["C11"]),
+    "C13k-defaulted-options-not-saved": ("C13", "a parent config that uses a legacy name (steps, RFVoltage, SyncFreq) with the current name given nowhere: save() skips options still flagged as defaulted, and the legacy hand-over leaves the flag set", ["C20"]),
+    "C14k-final-block-skipped-on-output-step": ("C14", "an interrupt in the iteration before an output step (outstep n > 0, stop after step k with k % n == 0): the final block is skipped as 'already recorded', the last record is n steps old", ["C10"]),
+    "C15k-track-record-interpolated-zero-on-mesh-line": ("C15", "a tracked coordinate that is an exact integer in grid units when output is written (start on a mesh point, clamped to the border): the conversion interpolates with weights ceil(x)-x and x-floor(x), both zero there - the record says 0", ["C10"]),
+    "C16k-negative-gap-radius-without-csr": ("C16", "a negative VacuumGap with --UseCSR false and a wall conductivity or a collimator: the pipe radius stays negative, the wall's real part is negative, the collimator is dropped", ["C10", "C05"]),
+    "C17k-wake-length-by-bunch-count": ("C17", "several buckets of which exactly one is filled and not the last (-I 1e-3 0) plus an impedance: the wake field's length is chosen by the number of bunches, the bunch is still placed at bucket x spacing - writes far beyond the buffers", ["C06", "C10"]),
+    "C18k-csr-skips-transform-if-buffer-equal": ("C18", "padBunchProfiles() directly followed by updateCSR() on one object after the profile changed: the transform is skipped when the padded buffer already equals the profile, the spectrum comes from the previously transformed profile", ["C07"]),
+    "C19k-phase-folded-into-one-rf-period": ("C19", "a phase excursion beyond half an RF period (--RFPhaseModAmplitude above about 180 degree): the queued phase is folded into [-pi,pi], records are not the configured sine and the linear model's kick jumps by a full period", ["C10"]),
+    "C20k-run-anyway-bool-switch": ("C20", "--run_anyway with an explicit value on the command line (false / 0 / =false): the command-line twin became a bool_switch, the value token is dropped or refused, a config-file true can no longer be overridden", ["C13"]),
 }
 
 
